@@ -29,6 +29,7 @@ def metric_cases(tier):
     c.append(("3d-one-offdiagonal", sp.Matrix([[2 + x[1], x[0] + x[2], 0], [x[0] + x[2], 3 - x[0], 0], [0, 0, 1 + x[1] + x[2]]])))
     c.append(("3d-dense-linear", sp.Matrix([[3 + x[0] - x[2], 1 + x[1], x[2] - x[0]], [1 + x[1], 4 + x[2], 1 - x[1] + x[0]],
                                             [x[2] - x[0], 1 - x[1] + x[0], 5 + x[0] + x[1]]])))
+    c.append(("3d-tridiagonal", sp.Matrix([[2 + x[0], 1 + x[1], 0], [1 + x[1], 3 + x[2], 1 + x[0]], [0, 1 + x[0], 4 + x[1]]])))
     c.append(("4d-diagonal", sp.diag(-(1 + x[1] ** 2 + x[0]), 1 + x[0] ** 2 + x[2], 2 + x[1] * x[3], 3 + x[0] - x[2] ** 2)))
     c.append(("4d-shift", sp.Matrix([[-2 + x[1], x[0] + x[2], 0, 0], [x[0] + x[2], 2 + x[3], 0, 0], [0, 0, 1 + x[1], 0], [0, 0, 0, 3 + x[0] - x[2]]])))
     if tier == "thorough":
@@ -76,7 +77,9 @@ def flat(v, n):
 
 
 def eval_case(job):
-    """One (metric, simplify flag, request order) on the real AurelCoreSymbolic. Returns {key: flat values} or error."""
+    """One (metric, simplify flag, request order) on the real AurelCoreSymbolic. Returns {key: flat values} or error.
+    A key that occurs several times in the order is evaluated each time (the last value is reported, and any change
+    between two reads of the same key is reported as 'changed')."""
     name, gsrepr, n, simplify, order, timeout = job
     import signal
     import aurel.coresymbolic as cs
@@ -90,8 +93,9 @@ def eval_case(job):
         rel = cs.AurelCoreSymbolic(list(XS[:n]), verbose=False, simplify=simplify)
         rel.data["gdown"] = g
         out = {}
-        for k in order:
-            out[k] = [float(x) if not isinstance(x, Fraction) else x for x in flat(rel[k], n)]
+        for k in list(order) + [k2 for k2 in dict.fromkeys(order)]:      # ... then every requested key is read once more
+            val = [float(x) if not isinstance(x, Fraction) else x for x in flat(rel[k], n)]
+            out[k] = val
         return {"ok": out}
     except TimeoutError:
         return {"timeout": True}
@@ -188,11 +192,17 @@ def run(tier, seed):
     resm = M.run_model(graph, ["gdown"], graph["keys"], 3, 10 ** 6, emit=True, graph_module=X.to_tla(graph, "CoreGraph"),
                        invariants=["NoReentrancy", "NoUnexplored", "CacheNeverWritten", "StackBounded"], properties=["NoInPlaceWrite"])
     run.add_tlc(resm, "AurelCache on the symbolic core's graph: all histories of <= 3 requests")
-    hists = sorted({tuple(p["hist"]) for p in resm.printed if isinstance(p, dict) and p.get("hist")})
+    hists = {tuple(p["hist"]) for p in resm.printed if isinstance(p, dict) and p.get("hist")}
+    # every request sequence of length 2 (and 3 in thorough): the finished behaviours of the same model
+    for nreq in ((2,) if tier == "quick" else (2, 3)):
+        resd = M.run_model(graph, ["gdown"], graph["keys"], nreq, 10 ** 6, emit=False, graph_module=X.to_tla(graph, "CoreGraph"),
+                           invariants=["NoReentrancy", "NoUnexplored", "StackBounded", "EmitDone"], properties=[])
+        run.add_tlc(resd, f"AurelCache on the symbolic core's graph: every finished behaviour of {nreq} requests")
+        hists |= {tuple(p["done"]) for p in resd.printed if isinstance(p, dict) and p.get("done")}
+    hists = sorted(hists)
     name, g = cases[1]
     hjobs = [(name, str(g.tolist()), 2, False, list(h), 120) for h in hists]
-    if tier == "thorough":
-        hjobs += [(name, str(g.tolist()), 2, True, list(h), 600) for h in hists[::3]]
+    hjobs += [(name, str(g.tolist()), 2, True, list(h), 600) for h in hists if len(h) == 2 or tier == "thorough"]
     with mp.get_context("fork").Pool(16) as pool:
         houts = pool.map(eval_case, hjobs)
     for hj, out in zip(hjobs, houts):
